@@ -31,6 +31,7 @@ CONFIGS = {
     'avx': ('', 'release', '-C target-feature=+avx', '', []),
     'avx2': ('', 'release', '-C target-feature=+avx2', '', []),
     'f32': ('', 'release', '', 'f32', []),
+    'f32cap': ('', 'release', '--cap-lints=warn', 'f32', []),
     'f32chk': ('', 'release', '-C overflow-checks=on -C debug-assertions=on', 'f32', []),
     'asan': ('+nightly', 'release', '-Zsanitizer=address -Cforce-frame-pointers=yes', '', ['--target', 'x86_64-unknown-linux-gnu']),
     'asan-avx2': ('+nightly', 'release', '-Zsanitizer=address -Cforce-frame-pointers=yes -C target-feature=+avx2', '', ['--target', 'x86_64-unknown-linux-gnu']),
